@@ -1,22 +1,33 @@
 //! C13 — UAC INVITE: responses map deterministically to early dialogs, sessions, failure
 //!
-//! **Generated.** One INVITE is sent through `Initiator` over a mock UDP transport under the paused clock; a case is
+//! **Generated.** One INVITE is sent through `Initiator` over a mock transport under the paused clock; a case is
 //! * a history of 1..10 responses (status from {100,180,183,199,200,202,300,404,486,603}; To-tag none / one of 3
 //!   forks; Contact present 93 %; 0..3 Record-Route; Supported timer/100rel; Require+RSeq; Session-Expires) at gaps
-//!   1..31000 ms, each carrying a unique `X-Seq` marker,
+//!   1..31000 ms, each carrying a unique `X-Seq` marker; a quarter of the random cases are "chatty": 6..14 responses,
+//!   mostly 101-199 of fork 0 at gaps 1..450 ms,
 //! * the SPELLING of the forks' To-tags (`tags`, see `TAG_FAMILIES`): plain `t0 t1 t2`, tags that differ only in
 //!   letter case, tags that are prefixes of each other, tags differing in one punctuation character of the token
 //!   alphabet, long tags differing in the last character only, numeric look-alikes (`1`, `01`, `1.0`). To-tags are
 //!   opaque tokens compared byte-wise (RFC 3261 19.3), so every pair of different strings is a pair of different forks,
-//! * the APPLICATION's polling schedule (`busy`): `busy[i]` ms pass between `Initiator::receive` handing response i
-//!   to the application and the application's next call of `receive` (0 = it polls again at once; values 3 ms ..
-//!   40 s, i.e. also longer than 64*T1). While the application is busy responses queue up in the transaction; they
-//!   are classified when it polls again. Every `Early` is polled continuously by its own task and let go of when it
-//!   yields a session or `Terminated`.
+//! * the TRANSPORT the INVITE goes out on (`reliable`): unreliable (UDP) or one that reports itself reliable (TCP).
+//!   Nothing in the statement depends on it (the Accepted state lasts 64*T1 on every transport: it collects the 2xx
+//!   of the other forks), so the oracle is the same for both,
+//! * the APPLICATION's polling schedule of the initiator (`busy`): `busy[i]` ms pass between `Initiator::receive`
+//!   handing response i to the application and the application's next call of `receive` (0 = it polls again at once;
+//!   values 3 ms .. 40 s, i.e. also longer than 64*T1). While the application is busy responses queue up in the
+//!   transaction; they are classified when it polls again,
+//! * the APPLICATION's polling schedule of the early dialogs (`early_lag`): `early_lag[j]` ms pass between the
+//!   application being handed the `Early` of fork j and its first `Early::receive` on it (0, 7 ms .. 70 s); from then
+//!   on it polls that `Early` continuously and lets go of it when it yields a session or `Terminated`. Until then
+//!   everything the initiator forwards to that early dialog piles up (1, 2, ... 10+ events, i.e. past any queue size).
 //! Sub-checks: `exhaustive` = every history of length <= 4 (thorough 5) over {100,180,200,486} x {no tag,t0,t1},
-//! continuous polling; `exhaustive-variants` = every history of length <= 3 (thorough 4) over the same alphabet under
-//! each of: case-variant tags, prefix tags, 33 s busy after every / only the first / only the second response, 600 ms
-//! busy after every response; `random` = sampled histories with all dimensions (half of them polled continuously).
+//! UDP, continuous polling; `exhaustive-variants` = every history of length <= 3 (thorough 4) over the same alphabet
+//! under each of: case-variant tags, prefix tags, 33 s busy after every / only the first / only the second response,
+//! 600 ms busy after every response, reliable transport, every Early polled 33 s late, reliable + 600 ms busy + every
+//! Early 613 ms late; `lazy-early` = 180 of fork 0, k = 0..8 (thorough 12) further 101-199 of fork 0, one of 7 endings
+//! (nothing / 200 of the fork / 200 of another fork / 486 / 18x+2xx of another fork then the fork's 2xx / 2xx twice /
+//! another fork's 18x,18x,603) x 5 lag vectors x gaps 1 / 450 ms x both transports; `random` = sampled histories with
+//! all dimensions.
 //!
 //! **Oracle.** A reference classifier replays the history in arrival order (the transaction's queue is FIFO) with
 //! the set of tags seen so far and the application's ready time R: response i is classified at d_i = max(arrival_i, R)
@@ -24,17 +35,24 @@
 //! 2xx -> session (through the early dialog of its tag if there is one) whose Call-ID / local tag come from the INVITE
 //! and whose remote tag (byte-exact), remote target and route set come from THAT response; first 3xx-6xx -> Failure,
 //! `Terminated` on every live early dialog, nothing delivered afterwards. Every response has exactly one recipient,
-//! exactly once, at d_i. A response that ARRIVED inside the Accepted window (earlier than 64*T1 - 3 ms after the
-//! arrival of the first 2xx) must be delivered however late the application polls. `Finished` is reported once, at
-//! max(R_final, D) with D = 64*T1 after the first 2xx, where "after the first 2xx" is accepted in both readings
-//! (its arrival, or the moment the polling application made the transaction see it).
+//! exactly once. What was forwarded to an early dialog comes out of its `Early` at max(d_i, the application's first
+//! poll of that `Early`), however many events piled up before. While an `Early` is not polled yet the initiator may
+//! or may not have to wait for room in that early dialog's queue when it forwards to it (the statement does not say
+//! how many events the queue holds): R and every later moment become intervals [no wait, wait until that `Early` is
+//! polled] and a delivery anywhere inside is accepted; without late `Early` objects the intervals are points. A
+//! response that ARRIVED inside the Accepted window (earlier than 64*T1 - 3 ms after the arrival of the first 2xx)
+//! must be delivered however late the application polls. `Finished` is reported once, at max(R_final, D) with
+//! D = 64*T1 after the first 2xx, where "after the first 2xx" is accepted in both readings (its arrival, or the
+//! moment the polling application made the transaction see it).
 //!
 //! **Not asserted.** What the application sees for a response whose tag already has its session (only: no second
 //! dialog, at most one delivery), and everything after it if the application is busy after that response (R is then
 //! unknown); anything from a dialog-creating response without Contact on; a non-2xx after a 2xx; responses arriving
 //! between 64*T1 - 3 ms after the first 2xx's arrival and the moment `Finished` is certainly reported (incl. those
 //! that arrive after the deadline while the application has not polled yet); the order of the route set (C11);
-//! lazily polled `Early` objects (their channel is bounded, back-pressure timing is not part of the statement).
+//! whether / how long the initiator waits for a not yet polled early dialog (only: nothing is lost, and it goes on
+//! when that `Early` is polled at the latest); an application that drops an `Early` before it yielded a session or
+//! `Terminated`, or polls it with pauses between the events.
 //!
 //! **Found with the lazily polled histories and repaired** (known_findings.txt, fix d9580d2): behind a 3xx-6xx that
 //! follows a 2xx the failure empties `early_list`, a further 18x of a tag that had an early dialog created a second
@@ -98,6 +116,20 @@ pub struct AppCase {
     /// ignored inside `receive`.
     #[serde(default)]
     pub busy: Vec<u64>,
+    /// the INVITE goes out over a transport that reports itself reliable (named TCP) instead of UDP
+    #[serde(default)]
+    pub reliable: bool,
+    /// `early_lag[j]` = ms between the application being handed the `Early` of fork j (index into the tag family) and
+    /// its first call of `Early::receive` on it; from then on it polls that `Early` continuously (missing / 0 = from
+    /// the start)
+    #[serde(default)]
+    pub early_lag: Vec<u64>,
+}
+
+impl AppCase {
+    fn lag_of(&self, fork: u8) -> u64 {
+        self.early_lag.get(fork as usize).copied().unwrap_or(0)
+    }
 }
 
 /// Spellings of the (up to 3) fork To-tags. Every family consists of three DIFFERENT tokens: To-tags are opaque and
@@ -119,11 +151,35 @@ pub fn tag_text(family: u8, idx: u8) -> String {
 
 const CODES: &[u16] = &[100, 180, 183, 199, 200, 202, 300, 404, 486, 603];
 
-fn resp_strategy() -> BoxedStrategy<RespEv> {
+/// `chatty` = the responses of a fork that keeps talking: mostly fork 0, mostly 101-199, short gaps
+fn resp_strategy(chatty: bool) -> BoxedStrategy<RespEv> {
+    let gap = if chatty {
+        prop_oneof![Just(1u64), Just(1u64), Just(1u64), Just(20u64), Just(450u64)].boxed()
+    } else {
+        prop_oneof![Just(1u64), Just(1u64), Just(20u64), Just(450u64), Just(700u64), Just(31_000u64)].boxed()
+    };
+    // selector into CODES: uniform, or weighted towards the provisional ones
+    let csel = if chatty {
+        prop_oneof![
+            1 => Just(0u16),                                       // 100
+            9 => prop_oneof![Just(1u16), Just(2u16), Just(3u16)], // 180 183 199
+            2 => prop_oneof![Just(4u16), Just(5u16)],             // 200 202
+            1 => prop_oneof![Just(6u16), Just(7u16), Just(8u16), Just(9u16)],
+        ]
+        .prop_map(|i| (i as u32 * 65536 / CODES.len() as u32 + 1) as u16)
+        .boxed()
+    } else {
+        any::<u16>().boxed()
+    };
+    let tag = if chatty {
+        prop_oneof![1 => Just(None), 8 => Just(Some(0u8)), 2 => Just(Some(1u8)), 1 => Just(Some(2u8))].boxed()
+    } else {
+        prop_oneof![1 => Just(None), 8 => (0u8..3).prop_map(Some)].boxed()
+    };
     (
-        prop_oneof![Just(1u64), Just(1u64), Just(20u64), Just(450u64), Just(700u64), Just(31_000u64)],
-        any::<u16>(),
-        prop_oneof![1 => Just(None), 8 => (0u8..3).prop_map(Some)],
+        gap,
+        csel,
+        tag,
         prop::bool::weighted(0.93),
         0u8..4,
         any::<bool>(),
@@ -162,23 +218,58 @@ fn busy_strategy() -> BoxedStrategy<u64> {
     .boxed()
 }
 
+/// how long the application takes to get around to an `Early` it was handed: not at all, a few ms, around T1,
+/// seconds, longer than 64*T1, longer than two of them (never on a timer instant of the transaction)
+fn lag_strategy() -> BoxedStrategy<u64> {
+    prop_oneof![
+        3 => Just(0u64),
+        1 => Just(7u64),
+        1 => Just(613u64),
+        1 => Just(2_537u64),
+        2 => Just(33_017u64),
+        1 => Just(70_003u64),
+    ]
+    .boxed()
+}
+
 pub fn strategy() -> BoxedStrategy<AppCase> {
-    (
-        prop::collection::vec((resp_strategy(), busy_strategy()), 1..11),
+    let general = (
+        prop::collection::vec((resp_strategy(false), busy_strategy()), 1..11),
         any::<u8>(),
         // tag spelling: plain 4/9, every other family 1/9
         prop_oneof![4 => Just(0u8), 1 => Just(1u8), 1 => Just(2u8), 1 => Just(3u8), 1 => Just(4u8), 1 => Just(5u8)],
-        // half of the cases: the application polls continuously
+        // half of the cases: the application polls the initiator continuously
         any::<bool>(),
+        // a third over a reliable transport
+        prop::bool::weighted(0.33),
+        // a third with Early objects the application gets around to late
+        prop_oneof![2 => Just(vec![]), 1 => prop::collection::vec(lag_strategy(), 3)],
     )
-        .prop_map(|(evs, rng, tags, lazy)| {
+        .prop_map(|(evs, rng, tags, lazy, reliable, early_lag)| {
             let (responses, mut busy): (Vec<RespEv>, Vec<u64>) = evs.into_iter().unzip();
             if !lazy {
                 busy.clear();
             }
-            AppCase { responses, rng, tags, busy }
-        })
-        .boxed()
+            AppCase { responses, rng, tags, busy, reliable, early_lag }
+        });
+    // a fork that keeps talking (6..14 responses, mostly 101-199 of fork 0 at short gaps) while the application has
+    // not got around to its Early yet: many events pile up for one early dialog
+    let chatty = (
+        prop::collection::vec((resp_strategy(true), busy_strategy()), 6..15),
+        any::<u8>(),
+        prop_oneof![4 => Just(0u8), 1 => Just(1u8), 1 => Just(2u8), 1 => Just(3u8), 1 => Just(4u8), 1 => Just(5u8)],
+        prop::bool::weighted(0.25),
+        prop::bool::weighted(0.33),
+        (prop_oneof![Just(613u64), Just(2_537u64), Just(33_017u64), Just(33_017u64), Just(70_003u64)], lag_strategy(), lag_strategy()),
+    )
+        .prop_map(|(evs, rng, tags, lazy, reliable, (l0, l1, l2))| {
+            let (responses, mut busy): (Vec<RespEv>, Vec<u64>) = evs.into_iter().unzip();
+            if !lazy {
+                busy.clear();
+            }
+            AppCase { responses, rng, tags, busy, reliable, early_lag: vec![l0, l1, l2] }
+        });
+    prop_oneof![3 => general, 1 => chatty].boxed()
 }
 
 /// every history of length <= max_len over a reduced alphabet (codes 100,180,200,486; tags none,#0,#1)
@@ -233,27 +324,82 @@ fn histories(max_len: usize) -> Vec<Case> {
 pub fn exhaustive_cases(tier: Tier) -> Vec<AppCase> {
     histories(tier.pick(4usize, 5usize))
         .into_iter()
-        .map(|c| AppCase { responses: c.responses, rng: c.rng, tags: 0, busy: vec![] })
+        .map(|c| AppCase { responses: c.responses, rng: c.rng, tags: 0, busy: vec![], reliable: false, early_lag: vec![] })
         .collect()
 }
 
-/// the same alphabet one step shorter, under each tag-spelling / polling variant
+/// the same alphabet one step shorter, under each tag-spelling / polling / transport variant
 pub fn variant_cases(tier: Tier) -> Vec<AppCase> {
     let max_len = tier.pick(3usize, 4usize);
     let mut out = vec![];
     for c in histories(max_len) {
         let n = c.responses.len();
         let only = |k: usize, b: u64| (0..n).map(|i| if i == k { b } else { 0 }).collect::<Vec<u64>>();
-        let variants: Vec<(u8, Vec<u64>)> = vec![
-            (1, vec![]),
-            (2, vec![]),
-            (0, vec![33_010; n]),
-            (0, vec![600; n]),
-            (0, only(0, 33_010)),
-            (0, only(1, 33_010)),
+        // (tag family, busy, reliable, early_lag)
+        let variants: Vec<(u8, Vec<u64>, bool, Vec<u64>)> = vec![
+            (1, vec![], false, vec![]),
+            (2, vec![], false, vec![]),
+            (0, vec![33_010; n], false, vec![]),
+            (0, vec![600; n], false, vec![]),
+            (0, only(0, 33_010), false, vec![]),
+            (0, only(1, 33_010), false, vec![]),
+            (0, vec![], true, vec![]),
+            (0, vec![], false, vec![33_017; 3]),
+            (0, vec![600; n], true, vec![613; 3]),
         ];
-        for (tags, busy) in variants {
-            out.push(AppCase { responses: c.responses.clone(), rng: c.rng, tags, busy });
+        for (tags, busy, reliable, early_lag) in variants {
+            out.push(AppCase { responses: c.responses.clone(), rng: c.rng, tags, busy, reliable, early_lag });
+        }
+    }
+    out
+}
+
+/// One fork (#0) keeps talking while the application has not got around to its `Early`: 180 of fork 0, then k further
+/// 101-199 of fork 0, then one of several endings; x the lag until the `Early` objects are polled x the gaps x the
+/// transport. k runs past every plausible size of the queue between initiator and early dialog.
+pub fn lazy_early_cases(tier: Tier) -> Vec<AppCase> {
+    let max_k = tier.pick(8usize, 12usize);
+    let ev = |gap: u64, code: u16, tag: Option<u8>, i: usize| RespEv {
+        gap,
+        code,
+        tag,
+        contact: true,
+        record_routes: (i % 3) as u8,
+        supported_timer: false,
+        supported_100rel: false,
+        rseq: false,
+        session_expires: None,
+        extra: vec![],
+    };
+    let endings: Vec<Vec<(u16, Option<u8>)>> = vec![
+        vec![],
+        vec![(200, Some(0))],
+        vec![(200, Some(1))],
+        vec![(486, None)],
+        vec![(180, Some(1)), (200, Some(1)), (200, Some(0))],
+        vec![(200, Some(0)), (200, Some(0))],
+        vec![(183, Some(1)), (180, Some(1)), (603, Some(1))],
+    ];
+    let lags: Vec<Vec<u64>> = vec![vec![613; 3], vec![33_017; 3], vec![70_003; 3], vec![33_017, 0, 0], vec![7, 2_537, 0]];
+    let mut out = vec![];
+    for k in 0..=max_k {
+        for (ei, ending) in endings.iter().enumerate() {
+            for (li, lag) in lags.iter().enumerate() {
+                for gap in [1u64, 450] {
+                    for reliable in [false, true] {
+                        if tier == Tier::Quick && reliable && gap == 450 && li >= 3 {
+                            continue;
+                        }
+                        let mut seq: Vec<(u16, Option<u8>)> = vec![(180, Some(0))];
+                        for j in 0..k {
+                            seq.push(([183u16, 180, 199][j % 3], Some(0)));
+                        }
+                        seq.extend(ending.iter().cloned());
+                        let responses = seq.iter().enumerate().map(|(i, (c, t))| ev(gap, *c, *t, i)).collect();
+                        out.push(AppCase { responses, rng: (k * 7 + ei * 3 + li) as u8, tags: 0, busy: vec![], reliable, early_lag: lag.clone() });
+                    }
+                }
+            }
         }
     }
     out
@@ -308,7 +454,11 @@ fn marker_of(r: &sip_core::transaction::TsxResponse) -> Option<String> {
 
 type Log = Arc<Mutex<Vec<Event>>>;
 
-async fn early_task(clock: Clock, tag: String, mut early: Early, log: Log, sessions: Arc<Mutex<Vec<Session>>>) {
+async fn early_task(clock: Clock, tag: String, lag: u64, mut early: Early, log: Log, sessions: Arc<Mutex<Vec<Session>>>) {
+    // the application gets around to this early dialog only after `lag` ms, from then on it polls it continuously
+    if lag > 0 {
+        clock.advance(lag).await;
+    }
     loop {
         match early.receive().await {
             Ok(EarlyResponse::Provisional(r, _)) => log.lock().push(Event {
@@ -368,14 +518,18 @@ fn routes_of(i: usize, n: u8) -> Vec<String> {
 
 /// the bare history: plain tags, an application that polls continuously (C02 uses this)
 pub fn run(case: &Case) -> Observed {
-    run_app(&AppCase { responses: case.responses.clone(), rng: case.rng, tags: 0, busy: vec![] })
+    run_app(&AppCase { responses: case.responses.clone(), rng: case.rng, tags: 0, busy: vec![], reliable: false, early_lag: vec![] })
 }
 
 pub fn run_app(case: &AppCase) -> Observed {
     let case = case.clone();
     run_world(case.rng as u64, |clock| async move {
         let log = WireLog::new(clock);
-        let (tp, _) = mock_datagram(&log, "UDP", false, false, "10.0.0.1:5060");
+        let (tp, _) = if case.reliable {
+            mock_datagram(&log, "TCP", false, true, "10.0.0.1:5060")
+        } else {
+            mock_datagram(&log, "UDP", false, false, "10.0.0.1:5060")
+        };
         let mut b = offline_builder();
         b.add_unmanaged_transport(tp.clone());
         let dl = b.add_layer(DialogLayer::default());
@@ -408,6 +562,7 @@ pub fn run_app(case: &AppCase) -> Observed {
             let events = events.clone();
             let sessions = sessions.clone();
             let busy = case.busy.clone();
+            let lags: Vec<(String, u64)> = (0..3u8).map(|j| (tag_text(case.tags, j), case.lag_of(j))).collect();
             tokio::spawn(async move {
                 loop {
                     let r = initiator.receive().await;
@@ -426,7 +581,8 @@ pub fn run_app(case: &AppCase) -> Observed {
                             handed = marker_of(&r);
                             let tag = r.base_headers.to.tag.as_ref().map(|t| t.to_string()).unwrap_or_default();
                             events.lock().push(Event { t_ms, recipient: None, kind: Kind::EarlyCreated, marker: marker_of(&r), dialog: None });
-                            tokio::spawn(early_task(clock, tag, early, events.clone(), sessions.clone()));
+                            let lag = lags.iter().find(|(t, _)| *t == tag).map_or(0, |(_, l)| *l);
+                            tokio::spawn(early_task(clock, tag, lag, early, events.clone(), sessions.clone()));
                         }
                         Ok(Response::Session(session, r)) => {
                             handed = marker_of(&r);
@@ -496,8 +652,8 @@ pub fn run_app(case: &AppCase) -> Observed {
                 settle().await;
             }
         }
-        // every busy period delays the application by at most its own length
-        clock.until(t + case.busy.iter().sum::<u64>() + TIMEOUT + 5000).await;
+        // every busy period / late Early delays the application by at most its own length
+        clock.until(t + case.busy.iter().sum::<u64>() + case.early_lag.iter().sum::<u64>() + TIMEOUT + 5000).await;
         settle().await;
         let evs = events.lock().clone();
         sessions.lock().clear();
@@ -517,11 +673,15 @@ pub fn check(case: &AppCase, out: &mut CaseOut) {
     let busy_of = |i: usize| case.busy.get(i).copied().unwrap_or(0);
 
     // ---- reference classifier ----
+    // Moments are intervals [lo, hi]: while an `Early` has not been polled yet the initiator, forwarding a response to
+    // it, may or may not have to wait for room in that early dialog's queue (until the application starts polling it
+    // at the latest). How many events such a queue holds is not part of the statement, both readings are accepted.
+    // Without late `Early` objects lo == hi everywhere.
     #[derive(Debug, Clone, PartialEq)]
     struct Want {
         marker: String,
-        /// when the response is classified: its arrival, or the application's next poll if that is later
-        t: u64,
+        /// when the response is delivered: its arrival, or the application's next poll if that is later
+        t: (u64, u64),
         recipient: Option<String>,
         kinds: Vec<Kind>, // admissible kinds
         optional: bool,
@@ -530,23 +690,43 @@ pub fn check(case: &AppCase, out: &mut CaseOut) {
         queued: bool,
         /// it arrived inside the Accepted window but is polled only after the earliest reading of the 64*T1 deadline
         polled_after_deadline: bool,
+        /// it was forwarded to an early dialog the application had not started to poll yet
+        to_unpolled_early: bool,
     }
     let mut want: Vec<Want> = vec![];
     let mut early: BTreeSet<String> = BTreeSet::new(); // live early dialogs by tag
+    let mut early_order: Vec<String> = vec![]; // ... in creation order
+    // early dialogs the application gets around to late: tag -> the moment it starts polling the Early
+    let mut poll_start: std::collections::BTreeMap<String, (u64, u64)> = Default::default();
+    // events forwarded before the application started polling that Early if the initiator never had to wait (for the class labels only)
+    let mut piled: std::collections::BTreeMap<String, usize> = Default::default();
     let mut upgraded: BTreeSet<String> = BTreeSet::new(); // tags whose early dialog became a session (early dropped)
     let mut direct_sessions: BTreeSet<String> = BTreeSet::new();
-    // first 2xx seen by the transaction: (arrival, moment the polling application made the transaction see it)
+    // first 2xx seen by the transaction: (arrival, latest moment the polling application made the transaction see it)
     let mut accepted: Option<(u64, u64)> = None;
     let mut ended: Option<(usize, u64)> = None; // transaction over (non-2xx final): index, time it was handed over
     let mut gone = false; // Finished was certainly reported before this arrival
-    let mut expect_terminated: Vec<(String, u64)> = vec![];
+    let mut expect_terminated: Vec<(String, (u64, u64))> = vec![];
     let mut stop_at: Option<usize> = None; // classification result is not asserted from this index on
     let mut cut_t: Option<u64> = None; // ... i.e. from this moment on
     let mut t = 0u64;
-    let mut ready = 0u64; // R: the moment from which the application is (again) inside Initiator::receive
+    // R: the moment from which the application is (again) inside Initiator::receive and the initiator is not waiting
+    // for an early dialog
+    let mut ready = (0u64, 0u64);
     let mut dup_seen = false;
     let mut dup_markers: Vec<(String, &'static str)> = vec![];
     let mut busy_used = false;
+    let mut late_early_used = false;
+    let mut failure_with_unpolled_early = false;
+    let mut after_first_2xx_asserted = false;
+    // forwarding an event at moment `at` into the queue of the early dialog `tag`: -> (moment the initiator goes on,
+    // moment the application gets the event out of the Early, was the Early not polled yet)
+    let forward = |poll_start: &std::collections::BTreeMap<String, (u64, u64)>, tag: &str, at: (u64, u64)| -> ((u64, u64), (u64, u64), bool) {
+        match poll_start.get(tag) {
+            Some(&(s_lo, s_hi)) if at.0 < s_hi => ((at.0, at.1.max(s_hi)), (at.0.max(s_lo), at.1.max(s_hi)), true),
+            _ => (at, at, false),
+        }
+    };
     for (i, r) in case.responses.iter().enumerate() {
         t += r.gap;
         let marker = format!("m{i}");
@@ -556,66 +736,84 @@ pub fn check(case: &AppCase, out: &mut CaseOut) {
         if let Some((fa, fd)) = accepted {
             if t + 3 >= fa + TIMEOUT {
                 // at / after the end of the Accepted state (in its earliest reading)
-                if ready.max(fd + TIMEOUT) + 3 < t {
+                if ready.1.max(fd + TIMEOUT) + 3 < t {
                     // the application was inside receive() when the deadline (latest reading) passed: Finished is out
                     gone = true;
                     continue;
                 }
                 // around the deadline, or after it while the application has not polled yet: not asserted
                 stop_at = Some(i);
-                cut_t = Some(t.max(ready));
+                cut_t = Some(t.max(ready.0));
                 break;
             }
         }
         // FIFO: classified on arrival if the application is waiting in receive(), else at its next poll
-        let d = t.max(ready);
+        let d = (t.max(ready.0), t.max(ready.1));
         ready = d;
-        let queued = d > t;
-        let polled_after_deadline = accepted.map_or(false, |(fa, _)| d >= fa + TIMEOUT);
-        let mk = |recipient: Option<String>, kinds: Vec<Kind>, optional: bool| Want { marker: marker.clone(), t: d, recipient, kinds, optional, idx: i, queued, polled_after_deadline };
+        let queued = d.1 > t;
+        let polled_after_deadline = accepted.map_or(false, |(fa, _)| d.0 >= fa + TIMEOUT);
+        let mk = |at: (u64, u64), recipient: Option<String>, kinds: Vec<Kind>, optional: bool, to_unpolled_early: bool| Want { marker: marker.clone(), t: at, recipient, kinds, optional, idx: i, queued, polled_after_deadline, to_unpolled_early };
         let tag = tag_of(r);
         let needs_dialog = (101..300).contains(&r.code) && tag.is_some();
         // handed = Initiator::receive returns this response to the application, which is then busy for busy[i]
         let mut handed = false;
         if r.code <= 100 {
-            want.push(mk(None, vec![Kind::Provisional], false));
+            want.push(mk(d, None, vec![Kind::Provisional], false, false));
             handed = true;
+            after_first_2xx_asserted |= accepted.is_some();
         } else if r.code >= 300 {
-            want.push(mk(None, vec![Kind::Failure], accepted.is_some()));
             if accepted.is_none() {
-                for e in &early {
-                    expect_terminated.push((e.clone(), d));
+                // every early dialog is told, in creation order; the initiator may have to wait for each not yet polled one
+                let mut at = d;
+                for e in &early_order {
+                    if !early.contains(e) {
+                        continue;
+                    }
+                    let (go_on, got, unpolled) = forward(&poll_start, e, at);
+                    at = go_on;
+                    failure_with_unpolled_early |= unpolled;
+                    expect_terminated.push((e.clone(), got));
                 }
                 early.clear();
-                ended = Some((i, d));
+                want.push(mk(at, None, vec![Kind::Failure], false, false));
+                ready = at;
+                ended = Some((i, at.1));
                 handed = true;
             } else {
                 // a non-2xx after a 2xx: what the initiator does with it is not asserted
+                want.push(mk(d, None, vec![Kind::Failure], true, false));
                 stop_at = Some(i + 1);
-                cut_t = Some(d);
+                cut_t = Some(d.0);
                 break;
             }
         } else if tag.is_none() {
             // 1xx/2xx without To-tag: cannot create a dialog, ignored (the transaction still sees the 2xx)
             if (200..300).contains(&r.code) && accepted.is_none() {
-                accepted = Some((t, d));
+                accepted = Some((t, d.1));
             }
         } else if needs_dialog && !r.contact && !early.contains(tag.as_ref().unwrap()) {
             // a dialog-creating response without Contact is malformed: error or ignore, nothing asserted after
             stop_at = Some(i);
-            cut_t = Some(d);
+            cut_t = Some(d.0);
             break;
         } else {
             let tag = tag.unwrap();
+            let was_accepted = accepted.is_some();
             if (200..300).contains(&r.code) && accepted.is_none() {
-                accepted = Some((t, d));
+                accepted = Some((t, d.1));
             }
             if early.contains(&tag) {
                 // forwarded inside receive(): the application is not handed anything
+                let (go_on, got, unpolled) = forward(&poll_start, &tag, d);
+                ready = go_on;
+                if unpolled && d.0 < poll_start[&tag].0 {
+                    *piled.entry(tag.clone()).or_default() += 1;
+                }
+                after_first_2xx_asserted |= was_accepted;
                 if r.code < 200 {
-                    want.push(mk(Some(tag.clone()), vec![Kind::Provisional], false));
+                    want.push(mk(got, Some(tag.clone()), vec![Kind::Provisional], false, unpolled));
                 } else {
-                    want.push(mk(Some(tag.clone()), vec![Kind::Session], false));
+                    want.push(mk(got, Some(tag.clone()), vec![Kind::Session], false, unpolled));
                     early.remove(&tag);
                     upgraded.insert(tag);
                 }
@@ -624,25 +822,47 @@ pub fn check(case: &AppCase, out: &mut CaseOut) {
                 // what the application sees is not asserted, only that nothing breaks
                 dup_seen = true;
                 dup_markers.push((marker.clone(), if upgraded.contains(&tag) { "after-early-upgrade" } else { "direct" }));
-                want.push(mk(None, vec![Kind::Session, Kind::EarlyCreated, Kind::Provisional], true));
+                // It may go into the queue of an Early the application has not started to poll: the one whose session
+                // it has not taken out yet, or one that an earlier such 18x got created for this tag (created or not
+                // is not asserted; if it was, the application gets around to it as late as to any Early of that fork)
+                let mut at = d;
+                if poll_start.contains_key(&tag) {
+                    let (go_on, got, _) = forward(&poll_start, &tag, d);
+                    ready = go_on;
+                    at = (d.0, got.1);
+                } else if r.code < 200 && !upgraded.contains(&tag) {
+                    let lag = r.tag.map_or(0, |j| case.lag_of(j));
+                    if lag > 0 {
+                        poll_start.insert(tag.clone(), (d.0 + lag, d.1 + lag));
+                    }
+                }
+                want.push(mk(at, None, vec![Kind::Session, Kind::EarlyCreated, Kind::Provisional], true, false));
                 if busy_of(i) > 0 {
                     // handed to the application or not: from here on the reference does not know when it polls
                     stop_at = Some(i + 1);
-                    cut_t = Some(d);
+                    cut_t = Some(d.0);
                     break;
                 }
             } else if r.code < 200 {
-                want.push(mk(None, vec![Kind::EarlyCreated], false));
+                want.push(mk(d, None, vec![Kind::EarlyCreated], false, false));
+                let lag = r.tag.map_or(0, |j| case.lag_of(j));
+                if lag > 0 {
+                    poll_start.insert(tag.clone(), (d.0 + lag, d.1 + lag));
+                    late_early_used = true;
+                }
+                early_order.push(tag.clone());
                 early.insert(tag);
                 handed = true;
+                after_first_2xx_asserted |= was_accepted;
             } else {
-                want.push(mk(None, vec![Kind::Session], false));
+                want.push(mk(d, None, vec![Kind::Session], false, false));
                 direct_sessions.insert(tag);
                 handed = true;
+                after_first_2xx_asserted |= was_accepted;
             }
         }
         if handed && busy_of(i) > 0 {
-            ready = d + busy_of(i);
+            ready = (ready.0 + busy_of(i), ready.1 + busy_of(i));
             busy_used = true;
         }
     }
@@ -692,7 +912,39 @@ pub fn check(case: &AppCase, out: &mut CaseOut) {
             out.class("first-2xx-queued-while-application-busy");
         }
     }
-    if tags.len() >= 2 || upgrade || dup_seen || queued_any {
+    if case.reliable {
+        out.class("reliable-transport");
+        if after_first_2xx_asserted {
+            out.class("reliable-transport:asserted-response-after-first-2xx");
+        }
+    }
+    if after_first_2xx_asserted {
+        out.class("asserted-response-after-first-2xx");
+    }
+    if late_early_used {
+        out.class("early-dialog-polled-late");
+    }
+    let to_unpolled_any = want.iter().any(|w| w.to_unpolled_early && asserted(w.idx));
+    if to_unpolled_any {
+        out.class("response-forwarded-to-early-dialog-not-yet-polled");
+    }
+    if want.iter().any(|w| w.to_unpolled_early && asserted(w.idx) && w.kinds[0] == Kind::Session) {
+        out.class("2xx-forwarded-to-early-dialog-not-yet-polled");
+    }
+    match piled.values().max().copied().unwrap_or(0) {
+        0 => {}
+        1..=2 => out.class("events-piled-up-for-unpolled-early-dialog:1-2"),
+        3..=4 => out.class("events-piled-up-for-unpolled-early-dialog:3-4"),
+        5..=6 => out.class("events-piled-up-for-unpolled-early-dialog:5-6"),
+        _ => out.class("events-piled-up-for-unpolled-early-dialog:7+"),
+    }
+    if failure_with_unpolled_early {
+        out.class("failure-while-early-dialog-not-yet-polled");
+    }
+    if want.iter().any(|w| asserted(w.idx) && w.t.0 != w.t.1) {
+        out.class("delivery-moment-depends-on-early-dialog-queue(interval-accepted)");
+    }
+    if tags.len() >= 2 || upgrade || dup_seen || queued_any || to_unpolled_any {
         out.nontrivial(case);
     }
     out.note = Some(format!(
@@ -731,7 +983,7 @@ pub fn check(case: &AppCase, out: &mut CaseOut) {
                     Kind::Failure => "failure-not-reported",
                     _ => "other",
                 };
-                out.fail(format!("c13.lost/{locus}"), format!("{what} (classified at {} ms) was delivered to nobody; events {:?}", w.t, out.note));
+                out.fail(format!("c13.lost/{locus}"), format!("{what} (classified at {}..={} ms) was delivered to nobody; events {:?}", w.t.0, w.t.1, out.note));
             }
             continue;
         }
@@ -747,8 +999,11 @@ pub fn check(case: &AppCase, out: &mut CaseOut) {
                 format!("{what}: delivered to {:?} as {:?}, expected {:?} as {:?}", e.recipient, e.kind, w.recipient, w.kinds),
             );
         }
-        if e.t_ms != w.t {
-            out.fail("c13.classify/late", format!("{what}: delivered at {} ms, expected at {} ms (arrival, or the application's next poll)", e.t_ms, w.t));
+        if e.t_ms < w.t.0 || e.t_ms > w.t.1 {
+            out.fail(
+                "c13.classify/late",
+                format!("{what}: delivered at {} ms, expected at {}..={} ms (arrival, or the application's next poll of the initiator / first poll of the early dialog)", e.t_ms, w.t.0, w.t.1),
+            );
         }
         // session contents come from THAT response
         if e.kind == Kind::Session && !w.optional {
@@ -799,9 +1054,9 @@ pub fn check(case: &AppCase, out: &mut CaseOut) {
         }
         // failure terminates every early dialog
         for (tag, t) in &expect_terminated {
-            let ok = obs.events.iter().any(|e| e.recipient.as_deref() == Some(tag.as_str()) && e.kind == Kind::Terminated && e.t_ms == *t);
+            let ok = obs.events.iter().any(|e| e.recipient.as_deref() == Some(tag.as_str()) && e.kind == Kind::Terminated && e.t_ms >= t.0 && e.t_ms <= t.1);
             if !ok && stop_at.is_none() {
-                out.fail("c13.failure/early-dialog-not-terminated", format!("early dialog {tag} did not get Terminated at {t} ms"));
+                out.fail("c13.failure/early-dialog-not-terminated", format!("early dialog {tag} did not get Terminated at {}..={} ms", t.0, t.1));
             }
         }
     }
@@ -819,12 +1074,12 @@ pub fn check(case: &AppCase, out: &mut CaseOut) {
     // it), or as soon as the application polls again after that
     if let (Some((fa, fd)), None) = (accepted, stop_at) {
         let fin: Vec<u64> = obs.events.iter().filter(|e| e.kind == Kind::Finished).map(|e| e.t_ms).collect();
-        let lo = ready.max(fa + TIMEOUT);
-        let hi = ready.max(fd + TIMEOUT);
+        let lo = ready.0.max(fa + TIMEOUT);
+        let hi = ready.1.max(fd + TIMEOUT);
         if fin.len() != 1 || fin[0] + 2 < lo || fin[0] > hi + 2 {
             out.fail(
                 "c13.finished/not-64T1-after-first-2xx",
-                format!("Finished at {fin:?}; first 2xx arrived at {fa}, seen by the polling application at {fd}, application polling again from {ready}: expected once in {lo}..={hi}"),
+                format!("Finished at {fin:?}; first 2xx arrived at {fa}, seen by the polling application at {fd}, application polling again from {ready:?}: expected once in {lo}..={hi}"),
             );
         }
     }
@@ -840,7 +1095,7 @@ pub fn property() -> Property {
     Property {
         fuzz: vec![],
         id: "C13",
-        rule: "a case = history of 1..10 responses to one INVITE sent through Initiator (status from {100,180,183,199,200,202,300,404,486,603}, To-tag none / 3 forks, Contact present 93%, 0..3 Record-Route, Supported timer/100rel, Require+RSeq, Session-Expires) at gaps 1..31000 ms under a paused clock, x the spelling of the fork To-tags (plain; differing only in letter case; prefixes of each other; one punctuation character; 40 characters differing in the last; numeric look-alikes) x the application's polling schedule (after being handed response i it does not call Initiator::receive for busy[i] in {0,3,40,600,2530,31600,33010,40020} ms; half of the random cases poll continuously). The application keeps every Early, polls it continuously and lets go of it when it yields a session or Terminated. exhaustive: every history of length <= 4 (thorough 5) over {100,180,200,486} x {no tag,#0,#1}, plain tags, continuous polling. exhaustive-variants: every such history of length <= 3 (thorough 4) under case-variant tags, prefix tags, 33 s busy after every / the first / the second response, 600 ms busy after every response. Oracle = reference classifier over the set of tags seen so far and the application's ready time (FIFO queue: a response is classified at max(arrival, next poll)); every response carries a unique X-Seq marker, so recipients are identified exactly. Non-trivial = >=2 distinct To-tags, or a 2xx after an 18x of the same tag, or a response for a tag that already has a session, or a response that waited in the queue while the application was busy; distinct by case.",
+        rule: "a case = history of 1..10 responses to one INVITE sent through Initiator (status from {100,180,183,199,200,202,300,404,486,603}, To-tag none / 3 forks, Contact present 93%, 0..3 Record-Route, Supported timer/100rel, Require+RSeq, Session-Expires) at gaps 1..31000 ms under a paused clock (a quarter of the random cases: 6..14 responses, mostly 101-199 of fork 0, gaps 1..450 ms), x the transport (UDP / one reporting itself reliable, a third of the random cases) x the spelling of the fork To-tags (plain; differing only in letter case; prefixes of each other; one punctuation character; 40 characters differing in the last; numeric look-alikes) x the application's polling schedule (after being handed response i it does not call Initiator::receive for busy[i] in {0,3,40,600,2530,31600,33010,40020} ms; half of the random cases poll continuously) x the application's schedule for the early dialogs (it first calls Early::receive on the Early of fork j early_lag[j] in {0,7,613,2537,33017,70003} ms after being handed it, then polls it continuously and lets go of it when it yields a session or Terminated; non-zero for some fork in ~45% of the random cases; meanwhile forwarded events pile up for that early dialog). exhaustive: every history of length <= 4 (thorough 5) over {100,180,200,486} x {no tag,#0,#1}, plain tags, UDP, continuous polling. exhaustive-variants: every such history of length <= 3 (thorough 4) under case-variant tags, prefix tags, 33 s busy after every / the first / the second response, 600 ms busy after every response, reliable transport, every Early polled 33 s late, reliable + 600 ms busy + every Early 613 ms late. lazy-early: 180 of fork 0 + k = 0..8 (thorough 12) further 101-199 of fork 0 + one of 7 endings x 5 early_lag vectors x gaps 1/450 ms x both transports. Oracle = reference classifier over the set of tags seen so far and the application's ready time (FIFO queue: a response is classified at max(arrival, next poll); what is forwarded to an early dialog comes out of its Early at max(that, first poll of the Early); while an Early is not polled yet the initiator may or may not wait for it when forwarding, later moments are intervals and any delivery inside is accepted); every response carries a unique X-Seq marker, so recipients are identified exactly. Non-trivial = >=2 distinct To-tags, or a 2xx after an 18x of the same tag, or a response for a tag that already has a session, or a response that waited in the queue while the application was busy, or a response forwarded to an early dialog the application had not started to poll; distinct by case.",
         assumptions: vec![
             "what the application sees for a response whose tag already has a session (retransmitted 2xx, late 18x) is not asserted beyond: delivered at most once, no second dialog, nothing panics, later responses are still classified; if the application is busy after such a response nothing after it is asserted (the reference cannot know whether it was handed over)",
             "a dialog-creating response without Contact is malformed: nothing is asserted from there on",
@@ -848,12 +1103,14 @@ pub fn property() -> Property {
             "non-2xx after a 2xx is not asserted",
             "'64*T1 after the first 2xx' is accepted in both readings when the application polls lazily (arrival of the 2xx / the poll that made the transaction see it): responses arriving later than 3 ms before the earlier deadline are not asserted unless Finished has certainly been reported (then they must not surface); responses that arrived before it must be delivered even if the application polls only after 64*T1",
             "To-tags are opaque tokens compared byte-wise; '%' in tags is excluded (open finding of C09/C11)",
-            "Early objects are always polled continuously (their channel is bounded; back-pressure timing is not part of the statement)",
+            "an Early is polled continuously from the application's first poll of it on (early_lag after it was handed over) and is let go of only when it yielded a session or Terminated; how many events the queue between initiator and early dialog holds is not part of the statement: whether the initiator waits for a not yet polled Early when forwarding to it is accepted either way (delivery moments are intervals), only loss / duplication / a wrong recipient are violations",
+            "the transport's reliability changes nothing in the expected classification or in the 64*T1 completion (RFC 6026 7.2: the Accepted state collects the 2xx of other forks on every transport)",
         ],
-        explanation: "exhaustive over the reduced alphabet up to the stated length (plain/continuous, and per listed variant one step shorter); random histories, tag spellings and polling schedules sampled",
+        explanation: "exhaustive over the reduced alphabet up to the stated length (plain/UDP/continuous, and per listed variant one step shorter); the lazy-early grid is enumerated completely; random histories, tag spellings, transports and polling schedules (initiator and early dialogs) sampled",
         subs: vec![
             enum_sub("exhaustive", exhaustive_cases, check),
             enum_sub("exhaustive-variants", variant_cases, check),
+            enum_sub("lazy-early", lazy_early_cases, check),
             prop_sub("random", strategy, 1200, 20000, check),
         ],
     }
